@@ -668,6 +668,11 @@ class NetworkGraph(AbstractBaseIR):
                 var_delayed = f"past({var}, {d})" if type(d) is float or d != 1 else var
                 if len(target_shape) < 1 or (len(target_shape) == 1 and target_shape[0] == 1):
                     buffer_eqs.append(f"{var}_buffered{buffer_id} = {var_delayed}")
+                elif len(delays) == 1:
+                    # a single delayed connection: the buffered value is a scalar (a length-1 vector could not be
+                    # written into the single target element)
+                    var_dict[f'{var}_buffered{buffer_id}']['shape'] = ()
+                    buffer_eqs.append(f"{var}_buffered{buffer_id} = index({var_delayed}, {sidx})")
                 else:
                     # slot i of the buffer belongs to the i-th delayed connection; it reads element `sidx` of the source
                     buffer_eqs.append(f"index({var}_buffered{buffer_id}, {i}) = index({var_delayed}, {sidx})")
